@@ -52,8 +52,8 @@ class RoundTrip(Unit):
     def cases(self, tier):
         out = []
         for c in self.dec.cases(tier):
-            if c.get("tail", "none") != "none":
-                continue  # canonical responses carry no unused buffer space
+            if c.get("tail", "none") != "none" or "short" in c:
+                continue  # canonical responses carry no unused buffer space and are not truncated
             if self.dec.name.startswith("decode/ModeSense") and len(c["pages"]) != 1:
                 continue  # zero / several pages: recorded C04 finding of the decoder (MODE DATA LENGTH ignored)
             if self.dec.name.startswith("decode/ModeSense") and c["bdl"]:
